@@ -18,6 +18,9 @@ import (
 type outcome struct {
 	Deps map[string]Dep // keyed by module path with major version
 	Err  string
+	// Lost: a field of the module file other than deps that the tidied file
+	// no longer has (not part of String: reported on its own)
+	Lost string
 }
 
 func (o outcome) String() string {
